@@ -49,7 +49,7 @@ it).  `B` must itself be a valid file (every chunk verifies), otherwise nothing 
 * chunks the scan marked valid really were present (no partially written chunk is trusted);
 * the body bytes requested, over all rounds, are exactly the extents of the needed chunks, none twice. -/
 def c04_ok (H : HashFn) (A : Option Bytes) (B tgt0 : Bytes) (scanFlags : List Int) (reqs : List String) (vd : Option Int)
-    (missing : Nat) (err : Bool) (final : Bytes) : Bool :=
+    (missing : Nat) (err : Bool) (final : Bytes) (exact : Bool := true) : Bool :=
   match parse H B with
   | none => true
   | some hb =>
@@ -65,7 +65,9 @@ def c04_ok (H : HashFn) (A : Option Bytes) (B tgt0 : Bytes) (scanFlags : List In
       | some rl =>
         let all := rl.flatten
         let want := needed H hb t2 a
-        coalesce all == coalesce want && totalLen all == totalLen want
+        -- (a retry after a dropped connection asks again for what the dropped transfer did not complete: only coverage then)
+        if exact then coalesce all == coalesce want && totalLen all == totalLen want
+        else coalesce all == coalesce want
     okEnd && okScan && okReq
 
 end Zck.PredUpd
